@@ -12,6 +12,9 @@
 (*               case space into seeds, the cases are their successors;    *)
 (*               each is printed as a CASE line with the outcome the       *)
 (*               specification demands.                                    *)
+(*   InitHist/NextHist : histories of calls on ONE shredder object         *)
+(*               (leader / receiver / slices of other shard sizes); every  *)
+(*               complete history is printed as a HIST line.               *)
 (***************************************************************************)
 EXTENDS Shred, Json, TLCExt
 
@@ -21,7 +24,9 @@ CONSTANTS
   SweepAll,     \* set of <<variant, hasParent>> for which EVERY data length is a case
   SweepExtra,   \* additional coded lengths (seeded sample) for the other pairs
   ShapeGrid,    \* TRUE: every (d, c) held shape; FALSE: boundary shapes only
-  ShapeN        \* data lengths used by the shape and injection families
+  ShapeN,       \* data lengths used by the shape and injection families
+  HistLen,      \* history family: number of calls served by one shredder object
+  HistSizes     \* history family: slice size classes, subset of {"small", "mid", "max"}
 
 VARIABLE cs
 vars == <<cs>>
@@ -221,6 +226,7 @@ IsMix(c) == c.inj \in {"mixsize", "mixroot"}
 Shredded(c) == ECShred(c.pv, c.slice).ok /\ (IsMix(c) => ECShred(c.pv, c.slice2).ok)
 Expect(c) ==
   [shred |-> ECShred(c.pv, c.slice), held |-> HeldCount(c), ndata |-> ECNumData(c.pv),
+   det |-> ECDeterministic(c.pv),
    deshred |-> IF Shredded(c) THEN [run |-> TRUE] @@ SummaryRep(c, 0) ELSE [run |-> FALSE]]
    @@ (IF IsMix(c) THEN [shred2 |-> ECShred(c.pv, c.slice2)] ELSE [nomix |-> TRUE])
 CaseIn(c) == IF IsMix(c) THEN c
@@ -247,12 +253,11 @@ C11_ShardArith == (IsCase /\ Shredded(cs)) =>
                      /\ ECShred(cs.pv, cs.slice).shard = ECShardSize(CW(cs)["A"].len)
 \* the C11 predicates of Shred.tla on ECDeshred, for both representatives; and the verdict the
 \* harness is given (computed on representative 0) is the verdict of the other one too
-C11_Receiver ==
-  (IsCase /\ Shredded(cs)) =>
+ReceiverOK(c) ==
     \A r \in {0, 1} :
-      LET v == cs.v
-          cw == CW(cs)
-          arr == ArrRep(cs, r)
+      LET v == c.v
+          cw == CW(c)
+          arr == ArrRep(c, r)
           res == ECDeshred(v, cw, arr)
           res2 == IF res.ok THEN ECDeshred(v, cw, ECForget(arr, res)) ELSE res
       IN /\ res.err # "Unspecified"
@@ -262,8 +267,55 @@ C11_Receiver ==
          /\ EC_ErrorUntouched(arr, res)
          /\ EC_ShortIsNotBlamed(v, cw, "A", arr, res)
          /\ EC_Again(arr, res, res2)
-         /\ (cs.inj # "none" => ~res.ok)           \* injected faults never yield a slice
-         /\ (r = 1 => Summary(cs, arr, res, res2) = SummaryRep(cs, 0))
+         /\ (c.inj # "none" => ~res.ok)           \* injected faults never yield a slice
+         /\ (r = 1 => Summary(c, arr, res, res2) = SummaryRep(c, 0))
+C11_Receiver == (IsCase /\ Shredded(cs)) => ReceiverOK(cs)
+
+---------------------------------------------------------------------------
+(* histories: one shredder object (the "node") serves HistLen calls, as    *)
+(* leader (shred) and as receiver (deshred of another leader's shreds,     *)
+(* enough of them or one short), with slices of different shard-size       *)
+(* classes.  A genuine state machine: the state is the object's log and    *)
+(* the steps so far, each step an ordinary case plus the role the node     *)
+(* plays in it; the other role is played by an object used for nothing     *)
+(* else.  The demanded outcome of every step is that of a fresh object.    *)
+HistOps == {"shred", "deshred", "short"}
+HistN(v, k) == CASE k = "small" -> 100 [] k = "mid" -> 5000 [] k = "max" -> NMax(v, FALSE)
+HistCase(v, op, k, pos) ==
+  LET D == ECNumData(v)
+      tot == IF op = "short" THEN ECData - 1 ELSE IF op = "shred" THEN ECData ELSE ECData + 3 * pos
+      d == Min2(D, 9 + 5 * pos)
+  IN CaseBase("hist", v, v, MkSlice(HistN(v, k), FALSE, HistN(v, k) + pos), Pick2(v, d, tot - d), "none", 0, ECNoSlice)
+InitHist == \E v \in ECVariants : cs = [fam |-> "hist", v |-> v, log |-> ECFresh, steps |-> <<>>]
+NextHist ==
+  /\ cs.fam = "hist" /\ Len(cs.steps) < HistLen
+  /\ \E op \in HistOps, k \in HistSizes :
+       LET c == HistCase(cs.v, op, k, Len(cs.steps)) IN
+       cs' = [cs EXCEPT !.log = ECLogged(@, <<op, k>>),
+                        !.steps = Append(@, [node |-> IF op = "shred" THEN "leader" ELSE "receiver",
+                                             c |-> c, exp |-> Expect(c)])]
+C11_History ==
+  (cs.fam = "hist" /\ Len(cs.steps) > 0) =>
+     LET st == cs.steps[Len(cs.steps)]
+         c == st.c
+         before == SubSeq(cs.log, 1, Len(cs.log) - 1)        \* what the node had served before this call
+     IN /\ Shredded(c) /\ ReceiverOK(c)
+        /\ EC_InstanceIndependent(before, c.v, CW(c), c.slice, ArrRep(c, 0))
+        /\ st.exp.shred = ECShredOn(before, c.v, c.slice)
+        /\ st.exp.deshred = [run |-> TRUE] @@ SummaryRep(c, 0)
+EmitHist ==
+  (cs.fam = "hist" /\ Len(cs.steps) = HistLen) =>
+     PrintT(<<"HIST", ToJson([v |-> cs.v,
+                              steps |-> [i \in 1..Len(cs.steps) |->
+                                           [node |-> cs.steps[i].node, in |-> CaseIn(cs.steps[i].c),
+                                            exp |-> cs.steps[i].exp]]])>>)
+\* witness (must be violated): leader, receiver of another shard size, leader again
+W_HistPattern ==
+  ~(cs.fam = "hist" /\ Len(cs.log) >= 3 /\
+      \E i \in 1..(Len(cs.log) - 2) :
+         /\ cs.log[i][1] = "shred" /\ cs.log[i + 1][1] = "deshred" /\ cs.log[i + 2][1] = "shred"
+         /\ cs.log[i][2] = cs.log[i + 2][2] /\ cs.log[i][2] # cs.log[i + 1][2])
+
 \* witnesses (must be violated)
 W_CaseOk == ~(IsCase /\ Shredded(cs) /\ SummaryRep(cs, 0).ok)
 W_CaseRefused == ~(IsCase /\ ~ECShred(cs.pv, cs.slice).ok)
